@@ -15,7 +15,9 @@ Compared
   (1) code: the region of `main` in the real module, from its FUNC_DEF (the `F` line of the dump)
       to its RETHROW, with the model's instruction list, instruction by instruction: opcode and
       the operand words that the opcode uses (INT value; ID_LOCAL stack_level,index; JUMPZ/JUMP
-      offset; SLIDE q,m).  The operand of LINE (a source line number, ignored by the modelled VM)
+      offset; SLIDE q,m; GLOBAL_VEC count; MARK return address, which is absolute in the real code
+      and relative to the MARK in the model: real w0 - address is compared; ID_FUNC_ADDR: the
+      model's operand must be the address of the `F` line of the stdlib function `print`).  The operand of LINE (a source line number, ignored by the modelled VM)
       and the stale words the emitter leaves in operand-less instructions are not compared.
          difference -> ctx.correspondence_broken("compile-model-vs-emit.c", first difference + program)
   (2) run: the real VM's result / exception / printed numbers with ValueVM's on the model code
@@ -36,7 +38,7 @@ import tempfile
 
 from lib import common, vmcheck
 
-RUN = os.path.join(common.BUILD, "ocaml", "compile", "run")
+RUN = os.environ.get("COMPILETIE_RUN") or os.path.join(common.BUILD, "ocaml", "compile", "run")
 NPROC = 16
 
 EXC_NAMES = {1: "division_by_zero", 2: "wrong_array_size", 3: "index_out_of_bounds", 4: "invalid_domain",
@@ -105,6 +107,8 @@ def run_compiletie(ctx, n, seed, level=1, keep=None):
     use = meaningful(names)
     rethrow = names.index("BYTECODE_RETHROW")
     line_op = names.index("BYTECODE_LINE")
+    mark_op = names.index("BYTECODE_MARK")
+    funcaddr_op = names.index("BYTECODE_ID_FUNC_ADDR")
     tmp = tempfile.mkdtemp(prefix="nvct.", dir="/var/tmp")
     res = {"programs": 0, "equal": 0, "instructions": 0, "run_equal": 0, "faults": 0, "opcodes": {},
            "code_diffs": [], "run_diffs": [], "eval_diffs": [], "gen_problems": [], "distinct": set()}
@@ -176,6 +180,13 @@ def run_compiletie(ctx, n, seed, level=1, keep=None):
                         break
                     r, m = real[k], model[k]
                     nw = use.get(r[0], 0)
+                    if r[0] == mark_op:
+                        r = (r[0], r[1] - (f[0][0] + k), r[2], r[3])       # relocate: absolute -> relative
+                    if r[0] == funcaddr_op and r[0] == m[0]:
+                        callee = [x for x in dd["funcs"] if x[0] == r[1]]
+                        if not callee or callee[0][4] != "print":
+                            diff = (k, r, m)
+                            break
                     if r[0] != m[0] or tuple(r[1:1 + nw]) != tuple(m[1:1 + nw]):
                         diff = (k, r, m)
                         break
